@@ -27,13 +27,16 @@ CONFIGS = {
 }
 NK, NE, NP = 5, 5, 4
 PRELUDE = ("(define K (make-vector %d #f)) (define E (make-vector %d #f)) (define P (make-vector %d #f)) "
-           "(define-record-type box (make-box v) box? (v box-v)) #t" % (NK, NE, NP))
+           "(define-record-type box (make-box v) box? (v box-v)) (define H #f) #t" % (NK, NE, NP))
 README = "/repo/README.md"
 
 
 def key_expr(rng, i):
-    k = rng.below(4)
+    k = rng.below(5)
     tag = "k%d-%d" % (i, rng.below(1000))
+    if k == 4:
+        # a key too large for the small holes of a fragmented heap: it lands above the ephemerons that refer to it
+        return "(make-vector 40 '%s)" % tag, None
     if k == 0:
         return '(string-append "%s" "")' % tag, '"%s"' % tag
     if k == 1:
@@ -131,7 +134,7 @@ def gen_history(rng):
     for opi in range(n):
         choices = []
         if focus in ("eph", "mixed"):
-            choices += [("mk-key", 4), ("unroot", 3), ("mk-eph", 5), ("drop-eph", 1), ("gc", 4), ("query", 5)]
+            choices += [("mk-key", 4), ("unroot", 3), ("mk-eph", 5), ("drop-eph", 1), ("gc", 4), ("query", 5), ("holes", 2)]
         if focus in ("ports", "mixed"):
             choices += [("open", 4), ("read", 3), ("close", 2), ("drop-port", 3), ("fdcount", 3), ("gc", 3)]
         op = rng.weighted(choices)
@@ -153,7 +156,7 @@ def gen_history(rng):
                 continue
             e = rng.below(NE)
             i = rng.choice(sorted(m.key))
-            vk = rng.weighted([(0, 2), (1, 1), (2, 4), (3, 2), (4, 1)])
+            vk = rng.weighted([(0, 2), (1, 1), (2, 4), (3, 2), (4, 1), (5, 3)])
             tag = "v%d" % rng.below(100000)
             if vk == 0:
                 vexpr, vspec = '(list \'%s (string-append "s" "%s"))' % (tag, tag), ["fresh", '(%s "s%s")' % (tag, tag)]
@@ -162,6 +165,10 @@ def gen_history(rng):
             elif vk == 2 and len(m.key) >= 2:
                 j = rng.choice([x for x in sorted(m.key) if x != i])
                 vexpr, vspec = "(vector-ref K %d)" % j, ["key", j]
+            elif vk == 5 and len(m.key) >= 2:
+                # a large fresh value that refers to another key: in a fragmented heap it lands ABOVE the (pair-sized) ephemeron
+                j = rng.choice([x for x in sorted(m.key) if x != i])
+                vexpr, vspec = "(make-vector 60 (vector-ref K %d))" % j, ["key", j]
             elif vk == 3 and m.eph:
                 # the value is an ephemeron object itself (often the one this slot held until now: it stays reachable only through the new one)
                 f = e if (e in m.eph and rng.chance(1, 2)) else rng.choice(sorted(m.eph))
@@ -171,6 +178,11 @@ def gen_history(rng):
             m.add_eph(e, i, vspec, opi)
             ops.append({"src": "(vector-set! E %d (make-ephemeron (vector-ref K %d) %s)) #t" % (e, i, vexpr), "kind": "mk-eph", "slot": e,
                         "kslot": i, "vspec": vspec})
+        elif op == "holes":
+            # fragment the heap: pair-sized holes between pair-sized live objects (ephemerons are pair-sized), then a collection
+            ops.append({"src": "(set! H (let loop ((i 0) (acc '())) (if (= i %d) acc (begin (cons 'junk i) (loop (+ i 1) (cons i acc)))))) #t" % rng.choice([50, 300, 2000]),
+                        "kind": "holes"})
+            ops.append({"op": "gc", "kind": "gc"})
         elif op == "drop-eph":
             if not m.eph:
                 continue
